@@ -120,6 +120,10 @@ impl Next<f64> for RelativeStrengthIndex {
         self.prev_val = input;
         let up_ema = self.up_ema_indicator.next(up);
         let down_ema = self.down_ema_indicator.next(down);
+        if up_ema + down_ema == 0.0 {
+            // Neither gains nor losses left in the averages: neutral value, avoid 0/0
+            return 50.0;
+        }
         100.0 * up_ema / (up_ema + down_ema)
     }
 }
